@@ -379,6 +379,9 @@ class ReadTarFS(FS):
 
     def isdir(self, path):
         _path = relpath(self.validatepath(path))
+        if not _path:
+            # the root is a directory even when the archive has no members
+            return True
         try:
             return self._directory_entries[_path].isdir()
         except KeyError:
